@@ -64,7 +64,7 @@ class Own(Flow):
                 return 'own'
             if not r and isinstance(e.func, ast.Name) and self._class_valued(e.func):
                 return 'own'
-            if not r and isinstance(e.func, ast.Name):
+            if not r and isinstance(e.func, (ast.Name, ast.Subscript)):
                 from .model import dispatch_targets
                 from . import tok as T
                 tg = dispatch_targets(self.model, e, T.resolve_local)
